@@ -354,7 +354,7 @@ func diff(a, b string, metadata []jd.Metadata) (string, bool, error) {
 		if err != nil {
 			return "", false, err
 		}
-		if str != "{}" {
+		if len(diff) > 0 {
 			haveDiff = true
 		}
 	default:
@@ -410,7 +410,7 @@ func diffV2(a, b string, options []v2.Option) (string, bool, error) {
 		if err != nil {
 			return "", false, err
 		}
-		if str != "{}" {
+		if len(diff) > 0 {
 			haveDiff = true
 		}
 	default:
